@@ -1,1 +1,597 @@
-//! (stub; see lib.rs for the owner)
+//! pc-pair: two `PeerConnection`s signalled in-process on loopback (owner: C17 / C10).
+//!
+//! * `PairCfg`   - the configuration record of DESIGN C10 (one per TLC-enumerated lattice point)
+//! * `Pair`      - both endpoints, their data channel / tracks, staged signalling
+//! * observers   - tasks that copy the public watch channels into the process-wide event log
+//!                 (`comp:"watch"`), so hook events and API-visible states share one total order
+//! * resources   - alive tokio tasks and socket descriptors of this process
+//!
+//! Everything here uses the public API of rustrtc only (plus `rustrtc::verif` for logging).
+
+use bytes::Bytes;
+use rustrtc::media::MediaStreamTrack;
+use rustrtc::media::frame::{AudioFrame, MediaKind as FrameKind, MediaSample, VideoFrame};
+use rustrtc::media::track::{SampleStreamSource, SampleStreamTrack};
+use rustrtc::transports::sctp::DataChannel;
+use rustrtc::{
+    BundlePolicy, DataChannelEvent, DisconnectReason, IceTcpPolicy, MediaKind, PeerConnection,
+    PeerConnectionEvent, PeerConnectionState, RtcConfiguration, RtcpMuxPolicy, RtpCodecParameters,
+    SdpCompatibilityMode, SessionDescription, TransportMode,
+};
+use serde_json::{Value, json};
+use std::sync::Arc;
+use std::sync::atomic::{AtomicBool, AtomicU64, Ordering};
+use std::time::{Duration, Instant};
+
+// --------------------------------------------------------------------------- configuration
+
+#[derive(Clone, Debug)]
+pub struct PairCfg {
+    pub mode: String,   // WebRtc | Srtp | Rtp
+    pub dc: bool,       // data channel (WebRtc only)
+    pub audio: bool,
+    pub video: bool,
+    pub bundle: String, // balanced | maxbundle | maxcompat
+    pub mux: String,    // require | negotiate
+    pub ice: String,    // full | liteA | liteB | tcp | udpmux
+    pub latching: bool,
+    pub compat: String,  // Standard | LegacySip
+    pub offerer: String, // A | B
+    /// short failure-detection timers (C17 loss scenarios); None = library defaults
+    pub fast_timers: bool,
+    /// small SCTP send buffer so that a sender can be blocked (BlockedSender scenarios)
+    pub small_sctp_buffer: bool,
+}
+
+impl Default for PairCfg {
+    fn default() -> Self {
+        PairCfg {
+            mode: "WebRtc".into(),
+            dc: true,
+            audio: false,
+            video: false,
+            bundle: "balanced".into(),
+            mux: "require".into(),
+            ice: "full".into(),
+            latching: false,
+            compat: "Standard".into(),
+            offerer: "A".into(),
+            fast_timers: false,
+            small_sctp_buffer: false,
+        }
+    }
+}
+
+impl PairCfg {
+    pub fn from_json(v: &Value) -> Self {
+        let mut c = PairCfg::default();
+        let s = |k: &str, d: &str| v.get(k).and_then(|x| x.as_str()).unwrap_or(d).to_string();
+        let b = |k: &str, d: bool| v.get(k).and_then(|x| x.as_bool()).unwrap_or(d);
+        c.mode = s("mode", &c.mode);
+        if let Some(m) = v.get("media").and_then(|m| m.as_array()) {
+            let has = |n: &str| m.iter().any(|x| x.as_str() == Some(n));
+            c.dc = has("dc");
+            c.audio = has("audio");
+            c.video = has("video");
+        } else {
+            c.dc = b("dc", c.dc);
+            c.audio = b("audio", c.audio);
+            c.video = b("video", c.video);
+        }
+        c.bundle = s("bundle", &c.bundle);
+        c.mux = s("mux", &c.mux);
+        c.ice = s("ice", &c.ice);
+        c.latching = b("latching", c.latching);
+        c.compat = s("compat", &c.compat);
+        c.offerer = s("offerer", &c.offerer);
+        c.fast_timers = b("fast_timers", c.fast_timers);
+        c.small_sctp_buffer = b("small_sctp_buffer", c.small_sctp_buffer);
+        c
+    }
+
+    pub fn to_json(&self) -> Value {
+        let mut media = vec![];
+        if self.dc {
+            media.push("dc");
+        }
+        if self.audio {
+            media.push("audio");
+        }
+        if self.video {
+            media.push("video");
+        }
+        json!({"mode": self.mode, "media": media, "bundle": self.bundle, "mux": self.mux, "ice": self.ice,
+               "latching": self.latching, "compat": self.compat, "offerer": self.offerer,
+               "fast_timers": self.fast_timers, "small_sctp_buffer": self.small_sctp_buffer})
+    }
+
+    pub fn transport_mode(&self) -> TransportMode {
+        match self.mode.as_str() {
+            "Srtp" => TransportMode::Srtp,
+            "Rtp" => TransportMode::Rtp,
+            _ => TransportMode::WebRtc,
+        }
+    }
+
+    /// `RtcConfiguration` of one side. `mux_port` is a free UDP port chosen by the caller for
+    /// the single-port mux variant.
+    pub fn rtc_config(&self, side: &str, mux_port: u16) -> RtcConfiguration {
+        let mut c = RtcConfiguration::default();
+        c.label = Some(side.to_string());
+        c.transport_mode = self.transport_mode();
+        c.bundle_policy = match self.bundle.as_str() {
+            "maxbundle" => BundlePolicy::MaxBundle,
+            "maxcompat" => BundlePolicy::MaxCompat,
+            _ => BundlePolicy::Balanced,
+        };
+        c.rtcp_mux_policy = if self.mux == "negotiate" {
+            RtcpMuxPolicy::Negotiate
+        } else {
+            RtcpMuxPolicy::Require
+        };
+        c.sdp_compatibility = if self.compat == "LegacySip" {
+            SdpCompatibilityMode::LegacySip
+        } else {
+            SdpCompatibilityMode::Standard
+        };
+        c.enable_latching = self.latching;
+        c.bind_ip = Some("127.0.0.1".into());
+        c.disable_ipv6 = true;
+        match self.ice.as_str() {
+            "liteA" => c.enable_ice_lite = side == "A",
+            "liteB" => c.enable_ice_lite = side == "B",
+            "tcp" => {
+                c.ice_tcp_policy = IceTcpPolicy::Enabled;
+                c.ice_gather_udp_hosts = false;
+            }
+            "udpmux" => {
+                // the answerer side plays the single-port server
+                if side != self.offerer {
+                    c.ice_udp_mux = true;
+                    c.ice_udp_mux_port = Some(mux_port);
+                }
+            }
+            _ => {}
+        }
+        if self.fast_timers {
+            c.ice_disconnect_threshold = Duration::from_millis(600);
+            c.ice_connection_timeout = Duration::from_millis(1500);
+            c.ice_disconnect_grace = Duration::from_millis(300);
+            c.sctp_heartbeat_interval = Duration::from_millis(200);
+            c.sctp_rto_initial = Duration::from_millis(200);
+            c.sctp_rto_min = Duration::from_millis(100);
+            c.sctp_rto_max = Duration::from_millis(400);
+            c.sctp_max_association_retransmits = 4;
+            c.sctp_max_heartbeat_failures = 2;
+        }
+        if self.small_sctp_buffer {
+            c.sctp_max_buffered_amount = 8 * 1024;
+            c.sctp_receive_window = 16 * 1024;
+        }
+        c
+    }
+}
+
+// --------------------------------------------------------------------------- logging
+
+pub fn log(comp: &'static str, inst: &str, ev: &'static str, fields: Value) {
+    rustrtc::verif::emit(comp, inst, ev, fields);
+}
+
+pub fn reason_name(r: &Option<DisconnectReason>) -> &'static str {
+    match r {
+        None => "None",
+        Some(DisconnectReason::LocalClose) => "LocalClose",
+        Some(DisconnectReason::Dropped) => "Dropped",
+        Some(DisconnectReason::IceFailed) => "IceFailed",
+        Some(DisconnectReason::IceDisconnected) => "IceDisconnected",
+        Some(DisconnectReason::DtlsFailed) => "DtlsFailed",
+        Some(DisconnectReason::DtlsClosed) => "DtlsClosed",
+        Some(DisconnectReason::SctpHeartbeatTimeout) => "SctpHeartbeatTimeout",
+        Some(DisconnectReason::SctpPeerDead) => "SctpPeerDead",
+        Some(DisconnectReason::SctpRemoteAbort) => "SctpRemoteAbort",
+        Some(DisconnectReason::SctpRemoteShutdown) => "SctpRemoteShutdown",
+        Some(DisconnectReason::TransportStartFailed(_)) => "TransportStartFailed",
+        Some(DisconnectReason::Unknown(_)) => "Unknown",
+    }
+}
+
+/// Observers hold only the watch receivers (never the PeerConnection), so they do not keep the
+/// connection alive; they end when the senders are dropped with the connection.
+pub struct Watchers {
+    handles: Vec<tokio::task::JoinHandle<()>>,
+}
+
+impl Watchers {
+    pub fn spawn(pc: &PeerConnection, label: &str) -> Self {
+        let mut handles = vec![];
+        let l = label.to_string();
+        let mut rx = pc.subscribe_peer_state();
+        handles.push(tokio::spawn(async move {
+            loop {
+                let v = format!("{:?}", *rx.borrow_and_update());
+                log("watch", &l, "peer", json!({"v": v}));
+                if rx.changed().await.is_err() {
+                    break;
+                }
+            }
+        }));
+        let l = label.to_string();
+        let mut rx = pc.subscribe_signaling_state();
+        handles.push(tokio::spawn(async move {
+            loop {
+                let v = format!("{:?}", *rx.borrow_and_update());
+                log("watch", &l, "sig", json!({"v": v}));
+                if rx.changed().await.is_err() {
+                    break;
+                }
+            }
+        }));
+        let l = label.to_string();
+        let mut rx = pc.subscribe_disconnect_reason();
+        handles.push(tokio::spawn(async move {
+            loop {
+                let v = reason_name(&rx.borrow_and_update().clone());
+                log("watch", &l, "reason", json!({"v": v}));
+                if rx.changed().await.is_err() {
+                    break;
+                }
+            }
+        }));
+        let l = label.to_string();
+        let mut rx = pc.subscribe_ice_connection_state();
+        handles.push(tokio::spawn(async move {
+            loop {
+                let v = format!("{:?}", *rx.borrow_and_update());
+                log("watch", &l, "ice", json!({"v": v}));
+                if rx.changed().await.is_err() {
+                    break;
+                }
+            }
+        }));
+        Watchers { handles }
+    }
+    pub fn stop(self) {
+        for h in self.handles {
+            h.abort();
+        }
+    }
+}
+
+// --------------------------------------------------------------------------- one endpoint
+
+pub struct MediaLeg {
+    pub kind: MediaKind,
+    pub source: Arc<SampleStreamSource>,
+    pub _local_track: Arc<SampleStreamTrack>,
+}
+
+pub struct Side {
+    pub label: String,
+    pub pc: Option<PeerConnection>,
+    pub dc: parking_lot::Mutex<Option<Arc<DataChannel>>>,
+    pub legs: Vec<MediaLeg>,
+    /// per data channel: was Open observed, number of Close events, messages received
+    pub dc_open: Arc<AtomicBool>,
+    pub dc_closes: Arc<AtomicU64>,
+    pub dc_msgs: Arc<parking_lot::Mutex<Vec<Vec<u8>>>>,
+    pub rtp_rx: Arc<parking_lot::Mutex<Vec<(String, Vec<u8>)>>>,
+    pub aux: parking_lot::Mutex<Vec<tokio::task::JoinHandle<()>>>,
+    pub watchers: parking_lot::Mutex<Option<Watchers>>,
+}
+
+fn codec(kind: MediaKind) -> RtpCodecParameters {
+    match kind {
+        MediaKind::Audio => RtpCodecParameters {
+            payload_type: 111,
+            name: "opus".into(),
+            clock_rate: 48000,
+            channels: 2,
+        },
+        _ => RtpCodecParameters {
+            payload_type: 96,
+            name: "VP8".into(),
+            clock_rate: 90000,
+            channels: 0,
+        },
+    }
+}
+
+impl Side {
+    pub fn new(label: &str, cfg: &PairCfg, mux_port: u16) -> Self {
+        let pc = PeerConnection::new(cfg.rtc_config(label, mux_port));
+        let mut legs = vec![];
+        for (on, kind, fk) in [
+            (cfg.audio, MediaKind::Audio, FrameKind::Audio),
+            (cfg.video, MediaKind::Video, FrameKind::Video),
+        ] {
+            if on {
+                let (source, track, _fb) = rustrtc::media::track::sample_track(fk, 64);
+                let source = Arc::new(source);
+                let _ = pc.add_track(track.clone(), codec(kind));
+                legs.push(MediaLeg {
+                    kind,
+                    source,
+                    _local_track: track,
+                });
+            }
+        }
+        let watchers = Watchers::spawn(&pc, label);
+        Side {
+            label: label.to_string(),
+            pc: Some(pc),
+            dc: parking_lot::Mutex::new(None),
+            legs,
+            dc_open: Arc::new(AtomicBool::new(false)),
+            dc_closes: Arc::new(AtomicU64::new(0)),
+            dc_msgs: Arc::new(parking_lot::Mutex::new(vec![])),
+            rtp_rx: Arc::new(parking_lot::Mutex::new(vec![])),
+            aux: parking_lot::Mutex::new(vec![]),
+            watchers: parking_lot::Mutex::new(Some(watchers)),
+        }
+    }
+
+    pub fn pc(&self) -> &PeerConnection {
+        self.pc.as_ref().expect("pc dropped")
+    }
+
+    /// Reader task of one data channel: logs Open / Message / Close as `app` events and counts them.
+    /// Holds the channel, not the connection.
+    pub fn attach_dc(&self, dc: Arc<DataChannel>) {
+        *self.dc.lock() = Some(dc.clone());
+        let (open, closes, msgs, l) = (
+            self.dc_open.clone(),
+            self.dc_closes.clone(),
+            self.dc_msgs.clone(),
+            self.label.clone(),
+        );
+        let h = tokio::spawn(async move {
+            while let Some(ev) = dc.recv().await {
+                match ev {
+                    DataChannelEvent::Open => {
+                        open.store(true, Ordering::SeqCst);
+                        log("app", &l, "dc_open", json!({"sid": dc.id}));
+                    }
+                    DataChannelEvent::Message(m) => {
+                        log("app", &l, "dc_msg", json!({"sid": dc.id, "len": m.len(), "h": rustrtc::verif::hash32(&m)}));
+                        msgs.lock().push(m.to_vec());
+                    }
+                    DataChannelEvent::Close => {
+                        closes.fetch_add(1, Ordering::SeqCst);
+                        log("app", &l, "dc_close", json!({"sid": dc.id}));
+                    }
+                }
+            }
+            log("app", &l, "dc_end", json!({"sid": dc.id}));
+        });
+        self.aux.lock().push(h);
+    }
+
+    /// Event pump: incoming data channels and tracks announced by the connection. Holds a clone of
+    /// the PeerConnection handle only while polling `recv()`; aborted by `release()`.
+    pub fn start_event_pump(self: &Arc<Self>) {
+        let me = self.clone();
+        let pc = self.pc().clone();
+        let h = tokio::spawn(async move {
+            while let Some(ev) = pc.recv().await {
+                match ev {
+                    PeerConnectionEvent::DataChannel(dc) => {
+                        log("app", &me.label, "dc_incoming", json!({"sid": dc.id}));
+                        me.attach_dc(dc);
+                    }
+                    PeerConnectionEvent::Track(t) => {
+                        let kind = format!("{:?}", t.kind());
+                        log("app", &me.label, "track", json!({"kind": kind}));
+                        if let Some(r) = t.receiver() {
+                            let track = r.track();
+                            let (rx, l) = (me.rtp_rx.clone(), me.label.clone());
+                            let k = kind.clone();
+                            let h2 = tokio::spawn(async move {
+                                while let Ok(s) = track.recv().await {
+                                    let data = match s {
+                                        MediaSample::Audio(f) => f.data,
+                                        MediaSample::Video(f) => f.data,
+                                    };
+                                    log("app", &l, "rtp_rx", json!({"kind": k, "len": data.len(), "h": rustrtc::verif::hash32(&data)}));
+                                    rx.lock().push((k.clone(), data.to_vec()));
+                                }
+                                log("app", &l, "track_end", json!({"kind": k}));
+                            });
+                            me.aux.lock().push(h2);
+                        }
+                    }
+                }
+            }
+        });
+        self.aux.lock().push(h);
+    }
+
+    pub fn send_media(&self, kind: MediaKind, payload: &[u8], ts: u32) -> bool {
+        for leg in &self.legs {
+            if leg.kind == kind {
+                let s = match kind {
+                    MediaKind::Audio => MediaSample::Audio(AudioFrame {
+                        rtp_timestamp: ts,
+                        clock_rate: 48000,
+                        data: Bytes::copy_from_slice(payload),
+                        ..Default::default()
+                    }),
+                    _ => MediaSample::Video(VideoFrame {
+                        rtp_timestamp: ts,
+                        data: Bytes::copy_from_slice(payload),
+                        is_last_packet: true,
+                        ..Default::default()
+                    }),
+                };
+                return leg.source.send(s).is_ok();
+            }
+        }
+        false
+    }
+
+    pub fn peer_state(&self) -> Option<PeerConnectionState> {
+        self.pc.as_ref().map(|p| *p.subscribe_peer_state().borrow())
+    }
+
+    /// Stop the harness's own helper tasks for this side (not the connection's).
+    pub fn release_aux(&self) {
+        for h in self.aux.lock().drain(..) {
+            h.abort();
+        }
+        if let Some(w) = self.watchers.lock().take() {
+            w.stop();
+        }
+    }
+}
+
+// --------------------------------------------------------------------------- the pair
+
+pub struct Pair {
+    pub cfg: PairCfg,
+    pub a: Arc<Side>,
+    pub b: Arc<Side>,
+}
+
+pub fn free_udp_port() -> u16 {
+    std::net::UdpSocket::bind("127.0.0.1:0")
+        .and_then(|s| s.local_addr())
+        .map(|a| a.port())
+        .unwrap_or(40000)
+}
+
+impl Pair {
+    pub fn new(cfg: &PairCfg) -> Self {
+        let mux_port = if cfg.ice == "udpmux" { free_udp_port() } else { 0 };
+        let a = Arc::new(Side::new("A", cfg, mux_port));
+        let b = Arc::new(Side::new("B", cfg, mux_port));
+        a.start_event_pump();
+        b.start_event_pump();
+        Pair {
+            cfg: cfg.clone(),
+            a,
+            b,
+        }
+    }
+
+    pub fn side(&self, l: &str) -> &Arc<Side> {
+        if l == "A" { &self.a } else { &self.b }
+    }
+    pub fn offerer(&self) -> &Arc<Side> {
+        self.side(&self.cfg.offerer.clone())
+    }
+    pub fn answerer(&self) -> &Arc<Side> {
+        if self.cfg.offerer == "A" { &self.b } else { &self.a }
+    }
+
+    /// The offerer creates the data channel before the offer (so the m=application section exists).
+    pub fn create_dc(&self) -> Result<(), String> {
+        if !self.cfg.dc {
+            return Ok(());
+        }
+        let o = self.offerer();
+        let dc = o
+            .pc()
+            .create_data_channel("verif", None)
+            .map_err(|e| format!("create_data_channel: {e}"))?;
+        log("app", &o.label, "dc_created", json!({"sid": dc.id}));
+        o.attach_dc(dc);
+        Ok(())
+    }
+
+    pub async fn make_offer(&self) -> Result<SessionDescription, String> {
+        let o = self.offerer();
+        let _ = o.pc().create_offer().await.map_err(|e| format!("create_offer: {e}"))?;
+        o.pc().wait_for_gathering_complete().await;
+        let offer = o.pc().create_offer().await.map_err(|e| format!("create_offer: {e}"))?;
+        Ok(offer)
+    }
+
+    pub async fn make_answer(&self) -> Result<SessionDescription, String> {
+        let a = self.answerer();
+        let _ = a.pc().create_answer().await.map_err(|e| format!("create_answer: {e}"))?;
+        a.pc().wait_for_gathering_complete().await;
+        let ans = a.pc().create_answer().await.map_err(|e| format!("create_answer: {e}"))?;
+        Ok(ans)
+    }
+
+    /// Full offer/answer exchange.
+    pub async fn signal(&self) -> Result<(), String> {
+        let offer = self.make_offer().await?;
+        self.offerer()
+            .pc()
+            .set_local_description(offer.clone())
+            .map_err(|e| format!("set_local(offer): {e}"))?;
+        self.answerer()
+            .pc()
+            .set_remote_description(offer)
+            .await
+            .map_err(|e| format!("set_remote(offer): {e}"))?;
+        let answer = self.make_answer().await?;
+        self.answerer()
+            .pc()
+            .set_local_description(answer.clone())
+            .map_err(|e| format!("set_local(answer): {e}"))?;
+        self.offerer()
+            .pc()
+            .set_remote_description(answer)
+            .await
+            .map_err(|e| format!("set_remote(answer): {e}"))?;
+        Ok(())
+    }
+}
+
+// --------------------------------------------------------------------------- waiting helpers
+
+pub async fn wait_until(deadline: Duration, mut f: impl FnMut() -> bool) -> bool {
+    let t0 = Instant::now();
+    loop {
+        if f() {
+            return true;
+        }
+        if t0.elapsed() > deadline {
+            return false;
+        }
+        tokio::time::sleep(Duration::from_millis(2)).await;
+    }
+}
+
+/// Wait until the process-wide event counter has not moved for `quiet`, at most `max`.
+pub async fn quiesce(quiet: Duration, max: Duration) -> bool {
+    let t0 = Instant::now();
+    let mut last = rustrtc::verif::event_count();
+    let mut since = Instant::now();
+    loop {
+        tokio::time::sleep(Duration::from_millis(5)).await;
+        let now = rustrtc::verif::event_count();
+        if now != last {
+            last = now;
+            since = Instant::now();
+        } else if since.elapsed() >= quiet {
+            return true;
+        }
+        if t0.elapsed() > max {
+            return false;
+        }
+    }
+}
+
+// --------------------------------------------------------------------------- resources
+
+pub fn alive_tasks() -> usize {
+    tokio::runtime::Handle::current().metrics().num_alive_tasks()
+}
+
+/// Number of socket descriptors of this process.
+pub fn socket_count() -> usize {
+    let mut n = 0;
+    if let Ok(rd) = std::fs::read_dir("/proc/self/fd") {
+        for e in rd.flatten() {
+            if let Ok(t) = std::fs::read_link(e.path()) {
+                if t.to_string_lossy().starts_with("socket:") {
+                    n += 1;
+                }
+            }
+        }
+    }
+    n
+}
